@@ -51,6 +51,25 @@ def run_all(args):
     return 1 if bad else 0
 
 
+def run_refresh(ids):
+    """tools_seeded.py refresh <id>...: re-evaluate the named stored changes and rewrite the 'confirmed' and
+    'check_result' parts of their meta.json."""
+    for sid in ids:
+        base = os.path.join(VERIF, "seeded", sid)
+        meta = json.load(open(os.path.join(base, "meta.json")))
+        prop = meta["breaks_property"]
+        rc, o = sh([PY, os.path.abspath(__file__), "eval", os.path.join(base, "patch.diff"), os.path.join(base, "demo.py"), prop], timeout=7200)
+        ev = json.loads(o)
+        ck = ev["checks"][prop]
+        meta["confirmed"] = {"demo_on_clean_tree_exit": ev["demo_clean_exit"], "patch_applies_to_repo_HEAD": ev["patch_applies"],
+                             "repository_tests_with_patch": ev["tests_with_patch"], "demo_with_patch_exit": ev["demo_patched_exit"]}
+        meta["check_result"] = {"check": prop, "exit": ck["exit"], "caught": ck["caught"], "signatures": ck["signatures"][:4],
+                                "messages": ck["messages"][:2]}
+        json.dump(meta, open(os.path.join(base, "meta.json"), "w"), indent=1)
+        print(sid, "caught" if ck["caught"] else "NOT caught", ck["signatures"][:2], flush=True)
+    return 0
+
+
 def run_hits(args):
     """tools_seeded.py hits: for every stored change, how many runs of the quick batch violate (margin of
     the detection; no shrinking)."""
@@ -87,6 +106,8 @@ def main():
     args = sys.argv[1:]
     if args and args[0] == "all":
         return run_all(args[1:])
+    if args and args[0] == "refresh":
+        return run_refresh(args[1:])
     if args and args[0] == "hits":
         return run_hits(args[1:])
     if len(args) < 4 or args[0] != "eval":
